@@ -468,6 +468,7 @@ class UnionMetaType(StructureMetaType):
             offset = 0
             buf = io.BytesIO(stream.read(cls.size))
 
+        end = offset
         for field in cls.__fields__:
             field_type = cls.cs.resolve(field.type)
 
@@ -478,8 +479,13 @@ class UnionMetaType(StructureMetaType):
             buf.seek(offset + start)
             value = field_type._read(buf, result)
 
-            sizes[field._name] = buf.tell() - start
+            sizes[field._name] = buf.tell() - offset - start
+            end = max(end, buf.tell())
             result[field._name] = value
+
+        if cls.size is None:
+            # A dynamically sized union occupies as many bytes as its longest member
+            stream.seek(end)
 
         return result, sizes
 
